@@ -9,6 +9,7 @@ open CffiVerif CffiVerif.Call CffiVerif.Callback CffiVerif.Proto
 rt   = `void` | `sint` | `uint` | `bool` | `char` | `blob`     (size ignored for void)
 obj  = `none` | `int:<n>` | `intlike:<n>` | `float` | `bytes:<hex>` | `charcdata:<n>` | `other` | `image:<hex>`
 body = `raise` | `ret=<obj>`          onerr = `absent` | `none` | `raise` | `ret=<obj>`
+`area <nargs> void | prim <name with ~ for space> <sizeof> | agg <sizeof>`   `size_of_a` and the bytes the backend may write: `ok <size_of_a> <written>`
 -/
 
 def splitColon (s : String) : List String := s.splitOn ":"
@@ -100,6 +101,20 @@ def step (_ : Unit) : List String → Unit × String
           let out := invoke rt enc raw body onerr buf
           ((), s!"ok {bytesHex (received rt out)} {out.printed} {if out.pending then 1 else 0}")
     | _, _, _, _ => ((), "bad-op")
+  | ["area", nargs, "void"] =>
+    match nat? nargs with
+    | some n => ((), s!"ok {sizeOfA n .void} {resultWritten .void}")
+    | none => ((), "bad-op")
+  | ["area", nargs, "prim", name, size] =>
+    match nat? nargs, nat? size with
+    | some n, some sz =>
+      let r := ResT.prim (name.replace "~" " ") sz
+      ((), s!"ok {sizeOfA n r} {resultWritten r}")
+    | _, _ => ((), "bad-op")
+  | ["area", nargs, "agg", size] =>
+    match nat? nargs, nat? size with
+    | some n, some sz => ((), s!"ok {sizeOfA n (.aggregate sz)} {resultWritten (.aggregate sz)}")
+    | _, _ => ((), "bad-op")
   | _ => ((), "bad-op")
 
 def main : IO Unit := runDriver () step
